@@ -7,7 +7,7 @@ namespace C25
 
 theorem init_tbase {g : Block} {T : List Block} (ht : Tree g T) (F margin : Nat) (r : Bool) :
     TBase g T F (init F margin r g) ∧ OrphPar (init F margin r g) := by
-  refine ⟨⟨init_inv F margin r g ht.gh, by simp [init], ?_, ?_, ?_, ?_, ?_, Nat.le_refl _⟩, ?_⟩
+  refine ⟨⟨init_inv F margin r g ht.gh, by simp [init], ?_, ?_, ?_, ?_, ?_, Nat.le_refl _, rfl⟩, ?_⟩
   · intro b hb; simp [init] at hb; rw [hb]; simp
   · intro o ho; simp [init] at ho
   · intro b hb
